@@ -14,8 +14,7 @@ import (
 )
 
 var lexSym = map[string][]rune{
-	"bu": {'不'}, "wei": {'为'}, "da": {'大'}, "yu": {'于'}, "deng": {'等'}, "ru": {'如'}, "guo": {'果'}, "he": {'何'},
-	"jie": {'结'}, "shu": {'束'}, "xun": {'循'}, "huan": {'环'}, "de": {'的'}, "zhu": {'注'},
+	"bian": {'遍'}, "bu": {'不'}, "chu": {'出'}, "da": {'大'}, "dang": {'当'}, "dao": {'导'}, "daoy": {'到'}, "de": {'的'}, "deng": {'等'}, "dey": {'得'}, "ding": {'定'}, "fou": {'否'}, "guo": {'果'}, "he": {'何'}, "heng": {'恒'}, "huan": {'环'}, "huo": {'或'}, "ji": {'继'}, "jian": {'建'}, "jie": {'结'}, "jiey": {'截'}, "lan": {'拦'}, "li": {'历'}, "ling": {'令'}, "mei": {'每'}, "pao": {'抛'}, "qi": {'其'}, "qie": {'且'}, "ru": {'如'}, "ruy": {'入'}, "she": {'设'}, "shr": {'输'}, "shu": {'束'}, "wei": {'为'}, "xiao": {'小'}, "xin": {'新'}, "xu": {'续'}, "xun": {'循'}, "yi": {'以'}, "yiy": {'义'}, "yu": {'于'}, "zai": {'再'}, "ze": {'则'}, "zhi": {'之'}, "zhu": {'注'},
 	"L": {'甲', 'a', 'ア', '가', 'é', 'Ω', '_', 'Z'}, "D": {'1', '0', '7', '9'},
 	"+": {'+'}, "-": {'-'}, "*": {'*'}, "/": {'/'}, "%": {'%'}, "sp": {' ', '\t', 0x3000}, "bt": {'`'}, "col": {'：', ':'},
 	"dot": {'.'}, "eq": {'='}, "lq": {'“'}, "rq": {'”'},
@@ -25,9 +24,7 @@ var tokName = map[uint8]string{
 	zh.TypeIdentifier: "id", zh.TypeString: "str", zh.TypeComment: "comment", zh.TypeFuncCall: "punct",
 	zh.TypeAssignMark: "op=", zh.TypeEqualMark: "op==", zh.TypeNEMark: "op/=", zh.TypePlus: "op+", zh.TypeMinus: "op-",
 	zh.TypeMultiply: "op*", zh.TypeDivision: "op/", zh.TypeModuloMark: "op%",
-	zh.TypeLogicNoW: "kwLogicNo", zh.TypeLogicLteW: "kwLogicLte", zh.TypeLogicNotEqW: "kwLogicNotEq", zh.TypeLogicYesW: "kwLogicYes",
-	zh.TypeLogicGtW: "kwLogicGt", zh.TypeLogicEqualW: "kwLogicEqual", zh.TypeCondW: "kwCond", zh.TypeFuncW: "kwFunc",
-	zh.TypeGetterW: "kwGetter", zh.TypeBreakW: "kwBreak", zh.TypeObjDotIIW: "kwObjDotII",
+	zh.TypeDeclareW: "kwDeclare", zh.TypeLogicYesW: "kwLogicYes", zh.TypeAssignConstW: "kwAssignConst", zh.TypeCondOtherW: "kwCondOther", zh.TypeCondW: "kwCond", zh.TypeFuncW: "kwFunc", zh.TypeGetterW: "kwGetter", zh.TypeReturnW: "kwReturn", zh.TypeAssignW: "kwAssign", zh.TypeLogicNoW: "kwLogicNo", zh.TypeLogicNotEqW: "kwLogicNotEq", zh.TypeLogicLteW: "kwLogicLte", zh.TypeLogicGteW: "kwLogicGte", zh.TypeLogicLtW: "kwLogicLt", zh.TypeLogicGtW: "kwLogicGt", zh.TypeVarOneW: "kwVarOne", zh.TypeCondElseW: "kwCondElse", zh.TypeWhileLoopW: "kwWhileLoop", zh.TypeObjNewW: "kwObjNew", zh.TypeObjDefineW: "kwObjDefine", zh.TypeObjThisW: "kwObjThis", zh.TypeLogicOrW: "kwLogicOr", zh.TypeLogicAndW: "kwLogicAnd", zh.TypeObjDotW: "kwObjDot", zh.TypeObjDotIIW: "kwObjDotII", zh.TypeCatchErrorW: "kwCatchError", zh.TypeLogicEqualW: "kwLogicEqual", zh.TypeInputW: "kwInput", zh.TypeIteratorW: "kwIterator", zh.TypeImportW: "kwImport", zh.TypeGetResultW: "kwGetResult", zh.TypeThrowErrorW: "kwThrowError", zh.TypeContinueW: "kwContinue", zh.TypeBreakW: "kwBreak",
 }
 
 type lexCase struct {
